@@ -114,9 +114,12 @@ class Panoptica_Aggregator:
                 continue_file = True
             else:
                 # TODO should also hash panoptica_evaluator just to make sure! and then save into header of file
-                assert header_hash == hash(
-                    "+".join(header_list)
-                ), "Hash of header not the same! You are using a different setup!"
+                # not an assert statement: under python -O it would be compiled away and rows of
+                # another setup would be appended under the wrong columns
+                if header_hash != hash("+".join(header_list)):
+                    raise AssertionError(
+                        "Hash of header not the same! You are using a different setup!"
+                    )
 
         if out_buffer_file.exists():
             os.remove(out_buffer_file)
